@@ -7,6 +7,7 @@ from hypothesis import strategies as st
 from tcv import engine, gen, hyp, model, mutate, rewriting, values
 from tcv.eq import canon
 from tcv.hyp import Finding, Violation
+from tcv.runtime import canon_param
 
 LEVEL = 'exploration'
 RULE = (
@@ -22,6 +23,12 @@ RULE = (
     'pair of corresponding tasks whose reference-model descriptors differ the locations differ (and, with C02, equal '
     'descriptors keep equal locations); no two tasks of one class with different descriptors share a location inside '
     'one chain. Non-trivial = descriptors differ by one mutation at depth >= 1 or at upstream distance >= 1.'
+)
+RULE += (
+    ' (iii) Parameter objects: 2-6 objects of a small AutoParameterObject hierarchy (Base <- Child adds an argument <- '
+    'GrandChild adds an elidable one; an unrelated class with the same argument names), defined afresh per case, '
+    'represented in a generated order: objects that differ in class or in any persisted argument print differently, '
+    'and an object prints the same every time it is asked.'
 )
 ASSUMPTIONS = [
     'default elision follows Python == as the code and docs do; generated defaults/values are type-consistent so this '
@@ -228,11 +235,112 @@ FINDINGS = {
 }
 
 
+# ---- parameter objects: a small class hierarchy, objects represented in a generated order -----------------------------
+
+OBJ_SRC = '''
+from taskchain.parameter import AutoParameterObject, ParameterObject
+
+
+class Base(AutoParameterObject):
+    def __init__(self, a, b=1, verbose=False):
+        self.a, self._b, self.verbose = a, b, verbose
+
+    @staticmethod
+    def dont_persist_default_value_args():
+        return ['b']
+
+
+class Child(Base):                       # adds an argument
+    def __init__(self, a, b=1, verbose=False, c=0):
+        super().__init__(a, b, verbose)
+        self.c = c
+
+
+class GrandChild(Child):                 # adds another one, with a default that is not persisted
+    def __init__(self, a, b=1, verbose=False, c=0, d='x'):
+        super().__init__(a, b, verbose, c)
+        self.d = d
+
+    @staticmethod
+    def dont_persist_default_value_args():
+        return ['b', 'd']
+
+
+class Other(AutoParameterObject):        # unrelated class with the same argument names
+    def __init__(self, a, c=0):
+        self.a, self.c = a, c
+'''
+OBJ_SIG = {'Base': ['a', 'b', 'verbose'], 'Child': ['a', 'b', 'verbose', 'c'],
+           'GrandChild': ['a', 'b', 'verbose', 'c', 'd'], 'Other': ['a', 'c']}
+OBJ_DEFAULT = {'b': 1, 'verbose': False, 'c': 0, 'd': 'x'}
+OBJ_ELIDE = {'Base': {'b'}, 'Child': {'b'}, 'GrandChild': {'b', 'd'}, 'Other': set()}
+
+
+def obj_descriptor(cls, kw):
+    """What distinguishes two parameter objects as computations: class + every persisted argument (verbose is ignored,
+    an elidable argument at its default is left out), type-strict."""
+    full = {n: kw.get(n, OBJ_DEFAULT.get(n)) for n in OBJ_SIG[cls]}
+    keep = {}
+    for n, v in full.items():
+        if n == 'verbose':
+            continue
+        if n in OBJ_ELIDE[cls] and canon_param(v) == canon_param(OBJ_DEFAULT[n]):
+            continue
+        keep[n] = canon_param(v)
+    return (cls, tuple(sorted(keep.items())))
+
+
+@st.composite
+def object_cases(draw):
+    arg = st.one_of(st.integers(0, 3), st.sampled_from(['x', 'y', '']), st.lists(st.integers(0, 2), max_size=2))
+    objs = []
+    for _ in range(draw(st.integers(2, 6))):
+        cls = draw(st.sampled_from(['Base', 'Child', 'Child', 'GrandChild', 'GrandChild', 'Other']))
+        kw = {'a': draw(arg)}
+        for n in OBJ_SIG[cls][1:]:
+            if draw(st.booleans()):
+                kw[n] = draw(st.booleans()) if n == 'verbose' else draw(
+                    st.one_of(st.just(OBJ_DEFAULT[n]), st.sampled_from(['x', 'y']) if n == 'd' else st.integers(0, 3)))
+        objs.append([cls, kw])
+    # the order in which the objects are represented (an object may be asked several times)
+    order = draw(st.lists(st.integers(0, len(objs) - 1), min_size=len(objs), max_size=2 * len(objs)))
+    return {'objects': objs, 'order': order + list(range(len(objs)))}
+
+
+def eval_objects(case, rec):
+    ns = {}
+    exec(compile(OBJ_SRC, '<c03-objects>', 'exec'), ns)     # fresh classes: nothing cached on them yet
+    from taskchain.parameter import Parameter
+    insts = [ns[c](**{k: copy.deepcopy(v) for k, v in kw.items()}) for c, kw in case['objects']]
+    reprs = {}
+    for i in case['order']:
+        p = Parameter('p')
+        p._value = insts[i]
+        r = p.repr
+        if i in reprs and reprs[i] != r:
+            raise Violation('object-representation-changes-between-calls', {'case': case, 'object': case['objects'][i],
+                                                                            'first': reprs[i], 'later': r})
+        reprs[i] = r
+    descs = [obj_descriptor(c, kw) for c, kw in case['objects']]
+    differ = False
+    for i in range(len(insts)):
+        for j in range(i + 1, len(insts)):
+            if descs[i] != descs[j]:
+                differ = True
+                if reprs[i] == reprs[j]:
+                    raise Violation('different-parameter-objects-same-representation',
+                                    {'case': case, 'a': case['objects'][i], 'b': case['objects'][j], 'repr': reprs[i]})
+    classes = {c for c, _ in case['objects']}
+    rec.case(case, nontrivial=differ and len(classes & {'Base', 'Child', 'GrandChild'}) >= 2,
+             classes=['objects'] + (['objects:hierarchy'] if len(classes & {'Base', 'Child', 'GrandChild'}) >= 2 else []))
+
+
 def plan(tier):
     q = tier == 'quick'
     shards = [{'kind': 'values', 'alphabet': 'quote-free', 'examples': 5000 if q else 120000} for _ in range(4 if q else 6)]
     shards += [{'kind': 'values', 'alphabet': 'full', 'examples': 5000 if q else 120000} for _ in range(2 if q else 4)]
     shards += [{'kind': 'chain', 'examples': 200 if q else 8000} for _ in range(8 if q else 6)]
+    shards += [{'kind': 'objects', 'examples': 3000 if q else 100000}]
     return shards
 
 
@@ -241,13 +349,17 @@ def run_shard(shard, seed, tier, rec):
     if shard['kind'] == 'values':
         hyp.run_given(rec, value_pairs(shard['alphabet']), lambda c: eval_values(c, rec), seed, shard['examples'],
                       kind='values')
+    elif shard['kind'] == 'objects':
+        hyp.run_given(rec, object_cases(), lambda c: eval_objects(c, rec), seed, shard['examples'], kind='objects')
     else:
         hyp.run_given(rec, chain_cases(), lambda c: eval_chain(c, rec), seed, shard['examples'], kind='chain')
 
 
 def replay(doc, rec):
     hyp.silence_library_logging()
-    if doc['case'].get('values'):
+    if doc['case'].get('objects'):
+        eval_objects(doc['case'], rec)
+    elif doc['case'].get('values'):
         eval_values(doc['case'], rec)
     else:
         eval_chain(doc['case'], rec)
